@@ -13,10 +13,10 @@ func init() {
 	register(&propDef{
 		ID: "C20",
 		Explanation: "Decides structural necessary conditions of 'no enabled log line is lost, duplicated or reordered': " +
-			"(R1) exhaustive level-filter tables: log() drops a message exactly when its level is below the threshold in force (package level if one is configured for the origin, else the global level), and fastcheck never rejects what log() would emit; " +
+			"(R1) exhaustive level-filter tables: log() drops a message exactly when its level is below the threshold in force (package level if one is configured for the origin, else the global level), fastcheck never rejects what log() would emit, and AddTracer creates a context tracer (which collects lines of every level) exactly when trace is the level in force for the caller; " +
 			"(R2) in log() and ContextTracer.Submit every path past the filter performs exactly one send on the log buffer by the calling goroutine itself (direct, or the chosen case of the forced-emptying loop) - no hand-off to another goroutine, no second send - followed by the writer wake-up; " +
 			"(R3) duplicate merging: logLine.Equal holds only for lines without tracer that agree in message, file, line and level (truth table), the writer writes the held line on every path before it replaces it, resets the duplicate count with it, and writes the last held line; " +
-			"(R4) all shutdown arms of the writer drain the buffer (finalizeWriting) before returning, finalizeWriting writes every line it dequeues, Shutdown closes the signal and waits for the writer. " +
+			"(R4) all shutdown arms of the writer drain the buffer (finalizeWriting) before returning, finalizeWriting writes every line it dequeues, Shutdown closes the signal and every exit of Shutdown - also for a second caller - has waited for the writer. " +
 			"(R5) lock pairing over the functions of package(s) log: " + lockRuleText + ". " +
 			"NOT decided: order under real producer interleavings, timing of the drain window.",
 		Rules: []ruleFn{c20R1, c20R2, c20R3, c20R4,
@@ -26,7 +26,7 @@ func init() {
 
 func c20R1(c *Ctx, r *Report) {
 	const rule = "C20-R1"
-	r.SetFloor(rule, 2)
+	r.SetFloor(rule, 3)
 	fn := c.Func("log.log")
 	if fn == nil {
 		r.Undecided(rule, "log.log", "anchor function missing")
@@ -162,6 +162,120 @@ func c20R1(c *Ctx, r *Report) {
 		}
 		r.Check(len(bad2) == 0, rule, fnKey(fc)+" / never rejects what log() would emit", "72 valuations", strings.Join(firstN(bad2, 4), "; "))
 	}
+	c20TracerTable(c, r, rule)
+}
+
+// c20TracerTable: a context tracer (which collects lines of every level) exists
+// only where trace is the level in force for the caller's package.
+func c20TracerTable(c *Ctx, r *Report, rule string) {
+	fn := c.Func("log.AddTracer")
+	if fn == nil {
+		r.Undecided(rule, "log.AddTracer", "anchor function missing")
+		return
+	}
+	trace, okT := c.constVal("log", "TraceLevel")
+	if !okT {
+		r.Undecided(rule, "log.TraceLevel", "constant missing")
+		return
+	}
+	var bad []string
+	n := 0
+	for global := int64(1); global <= 6; global++ {
+		for sev := int64(1); sev <= 6; sev++ {
+			for bits := 0; bits < 4; bits++ {
+				pkgActive, found := bits&1 != 0, bits&2 != 0
+				if (!pkgActive || !found) && sev != 1 {
+					continue
+				}
+				if !pkgActive && found {
+					continue
+				}
+				it := &Interp{Fn: fn, MaxStates: 50000}
+				it.Inline = func(callee *ssa.Function) bool { return fnKey(callee) == "log.fastcheck" }
+				it.Input = func(v ssa.Value) (AV, bool) {
+					switch x := v.(type) {
+					case *ssa.Parameter:
+						if x.Name() == "ctx" {
+							return AV{K: KNonNil}, true
+						}
+						if x.Name() == "level" {
+							return avInt(trace), true
+						}
+					case *ssa.Call:
+						if p, m, ok := aboolOp(x); ok && p == "global:log.pkgLevelsActive" && m == "IsSet" {
+							return avBool(pkgActive), true
+						}
+						switch calleeName(&x.Call) {
+						case "sync/atomic.LoadUint32":
+							return avInt(global), true
+						case "builtin.len":
+							if _, isSplit := isCallTo(x.Call.Args[0], "strings.Split"); isSplit {
+								return avInt(3), true
+							}
+						}
+					case *ssa.Extract:
+						if lk, ok := x.Tuple.(*ssa.Lookup); ok && vpath(lk.X) == "global:log.pkgLevels" {
+							if x.Index == 0 {
+								return avInt(sev), true
+							}
+							return avBool(found), true
+						}
+						if call, ok := x.Tuple.(*ssa.Call); ok && calleeName(&call.Call) == "runtime.Caller" && x.Index == 3 {
+							return avBool(true), true
+						}
+						if _, ok := x.Tuple.(*ssa.TypeAssert); ok && x.Index == 1 {
+							return avBool(false), true // no tracer in the context yet
+						}
+					}
+					return AV{}, false
+				}
+				isCreate := func(in ssa.Instruction) bool {
+					al, ok := in.(*ssa.Alloc)
+					return ok && ownerType(al.Type()) == "log.ContextTracer"
+				}
+				it.Outcome = func(in ssa.Instruction, _ func(ssa.Value) AV) string {
+					if isCreate(in) {
+						return "create"
+					}
+					if _, ok := in.(*ssa.Return); ok {
+						return "ret"
+					}
+					return ""
+				}
+				it.Mark = func(in ssa.Instruction) int {
+					if isCreate(in) {
+						return 0
+					}
+					return -1
+				}
+				if !it.Run() {
+					r.Undecided(rule, fnKey(fn), "state budget exceeded")
+					return
+				}
+				n++
+				_, created := it.Outcomes["create"]
+				without := false
+				for m := range it.Outcomes["ret"] {
+					if m&1 == 0 {
+						without = true
+					}
+				}
+				thr := global
+				if pkgActive && found {
+					thr = sev
+				}
+				want := trace >= thr
+				key := fmt.Sprintf("global=%d pkgLevels=%v pkgLevelFound=%v pkgLevel=%d", global, pkgActive, found, sev)
+				if created && !want {
+					bad = append(bad, key+" -> a tracer is created although trace is below the level in force: its trace/debug lines are emitted with the submission")
+				}
+				if want && (!created || without) {
+					bad = append(bad, key+" -> no tracer although trace is enabled for the caller")
+				}
+			}
+		}
+	}
+	r.Check(len(bad) == 0, rule, fnKey(fn)+" / tracer creation table", fmt.Sprintf("%d valuations: a tracer is created exactly when trace >= threshold in force", n), strings.Join(firstN(uniq(bad), 4), "; "))
 }
 
 func isLogBuffer(ch ssa.Value) bool { return vpath(ch) == "global:log.logBuffer" }
@@ -510,16 +624,16 @@ func c20R4(c *Ctx, r *Report) {
 			ci, ok := in.(*ssa.Call)
 			return ok && calleeName(&ci.Call) == "sync.WaitGroup.Wait" && vpath(ci.Call.Args[0]) == "global:log.shutdownWaitGroup"
 		}
-		okWait := false
+		okWait, nRet := true, 0
 		eachInstr(s, func(in ssa.Instruction) {
 			if ret, ok := in.(*ssa.Return); ok {
-				if ReachTargetAvoiding(s, ret, nil, isWait) == nil {
-					okWait = true
-				} else {
+				nRet++
+				if ReachTargetAvoiding(s, ret, nil, isWait) != nil {
 					okWait = false
 				}
 			}
 		})
+		okWait = okWait && nRet > 0
 		r.Check(okWait, rule, fnKey(s)+" / waits for the writer", "every exit of Shutdown waits for the writer group", "Shutdown can return without waiting for the writer to drain")
 		r.Check(funcHas(s, 0, isClose), rule, fnKey(s)+" / signals shutdown", "closes the shutdown signal", "Shutdown never signals the writer")
 	}
